@@ -688,33 +688,46 @@ End Proofs.
     through: both of its probe sets in the doubled tables are full. *)
 Definition wit_h : nat -> key -> N := h_tab [[1;1;0];[0;0;0]]%N.
 Definition wit_P : params := mkParams 2 1 0 false.
-Definition wit_t2 : tbl :=
-  snd (fst (insert wit_h wit_P 6 (snd (fst (insert wit_h wit_P 6 (init wit_P 1) 0%N))) 1%N)).
+Definition wit_t1 : tbl := snd (fst (insert wit_h wit_P 6 (init wit_P 1) 0%N)).
+Definition wit_t2 : tbl := snd (fst (insert wit_h wit_P 6 wit_t1 1%N)).
+Definition wit_t3 : tbl := snd (fst (insert wit_h wit_P 6 wit_t2 2%N)).
 
 Lemma wit_reach : reach wit_h wit_P wit_t2.
 Proof.
-  eapply reach_insert with (x := 1%N) (fuel := 6); [eapply reach_insert with (x := 0%N) (fuel := 6); [apply reach_init|]|].
-  - vm_compute. reflexivity.
+  apply (reach_insert wit_h wit_P wit_t1 1%N 6 wit_t2 []).
+  - apply (reach_insert wit_h wit_P (init wit_P 1) 0%N 6 wit_t1 []); [apply reach_init|].
+    vm_compute. reflexivity.
   - vm_compute. reflexivity.
 Qed.
+
+Definition wit_resize_arg : tbl :=
+  let t := wit_t2 in let x := 2%N in let i := 0 in
+  let ts' := put wit_h wit_P (tabs t) (lg t) i x in
+  let r := relocate wit_h wit_P (relocate_limit wit_P) ts' (lg t) i (hd x (getb ts' i (idx wit_h (lg t) i x))) in
+  mkTbl (lg t) (fst r) (S (cnt t)).
 
 Theorem resize_refuted :
   exists (h : nat -> key -> N) (P : params) (t : tbl),
     resize_called_on h P t /\ snd (resize h P t) <> [].
 Proof.
-  exists wit_h, wit_P. eexists. split.
-  - eapply (rc_relocate_failed wit_h wit_P wit_t2 2%N 0); [apply wit_reach|vm_compute; reflexivity..].
+  exists wit_h, wit_P, wit_resize_arg. split.
+  - unfold wit_resize_arg. apply (rc_relocate_failed wit_h wit_P wit_t2 2%N 0).
+    + apply wit_reach.
+    + vm_compute. reflexivity.
+    + vm_compute. reflexivity.
+    + vm_compute. reflexivity.
+    + vm_compute. reflexivity.
   - vm_compute. discriminate.
 Qed.
 
 (** end to end: three inserts all report success, the set then claims three elements and key 1 is gone *)
 Theorem insert_loses_refuted :
-  exists (h : nat -> key -> N) (P : params) (lg0 fuel : nat) (t1 t2 t3 : tbl) (d1 d2 d3 : list key),
-    insert h P fuel (init P lg0) 0%N = (Ok true, t1, d1) /\
-    insert h P fuel t1 1%N = (Ok true, t2, d2) /\
+  exists (h : nat -> key -> N) (P : params) (lg0 fuel : nat) (t1 t2 t3 : tbl) (d3 : list key),
+    insert h P fuel (init P lg0) 0%N = (Ok true, t1, []) /\
+    insert h P fuel t1 1%N = (Ok true, t2, []) /\
     insert h P fuel t2 2%N = (Ok true, t3, d3) /\
     cfind h P t2 1%N = true /\ cfind h P t3 1%N = false /\ cnt t3 = 3 /\ d3 = [1%N].
 Proof.
-  exists wit_h, wit_P, 1, 6. do 6 eexists. vm_compute. repeat split; reflexivity.
+  exists wit_h, wit_P, 1, 6, wit_t1, wit_t2, wit_t3, [1%N].
+  vm_compute. repeat split; reflexivity.
 Qed.
-
